@@ -81,7 +81,7 @@ def c02(ck, thorough):
     fams = ["f23", "chains", "rand:%d:10:6" % (400 if thorough else 60)] + (["f33"] if thorough else [])
     product(ck, "c02", fams, full=thorough, shards=4, mks=kinds)
     calls(ck, "c02_enum", "enum", scale=2, mks=kinds, an="no", flav="find,iter")
-    calls(ck, "c02_rand", "rand", scale=10 if thorough else 2, mks=kinds, an="no", flav="find,iter")
+    calls(ck, "c02_rand", "rand", scale=30 if thorough else 2, mks=kinds, an="no", flav="find,iter")
 
 
 def c03(ck, thorough):
@@ -211,10 +211,10 @@ def c09(ck, thorough):
     mc(ck, "ACIter", "c09_iter", iter_consts(ALLK, [True], thorough), ITER_INV, ["Progress"])
     mc(ck, "ACOverlap", "c09_overlap", overlap_consts([True], [False], thorough),
        ["OverlapCorrect", "StateSane"], view="View")
-    fams = ["f23", "rand:%d:10:6" % (300 if thorough else 40)]
+    fams = ["f23", "chains", "rand:%d:10:6" % (600 if thorough else 40)]
     product(ck, "c09", fams, full=thorough, shards=4, mks=ALLK)
     calls(ck, "c09_enum", "enum", scale=2 if thorough else 1, mks=ALLK, an="yes", flav="all")
-    calls(ck, "c09_rand", "rand", scale=10 if thorough else 2, mks=ALLK, an="yes", flav="all")
+    calls(ck, "c09_rand", "rand", scale=30 if thorough else 2, mks=ALLK, an="yes", flav="all")
     calls(ck, "c09_nested", "nested", scale=2 if thorough else 1, mks=ALLK, an="yes", flav="all")
 
 
@@ -225,7 +225,7 @@ def c14(ck, thorough):
        SEARCH_INV, ["PositionMonotone"])
     calls(ck, "c14_enum", "enum", scale=2 if thorough else 1, mks=ALLK, an="both",
           flav="find,early,is_match")
-    calls(ck, "c14_rand", "rand", scale=10 if thorough else 2, mks=ALLK, an="both",
+    calls(ck, "c14_rand", "rand", scale=30 if thorough else 2, mks=ALLK, an="both",
           flav="find,early,is_match")
     calls(ck, "c14_nested", "nested", scale=2 if thorough else 1, mks=ALLK, an="both",
           flav="find,early,is_match")
@@ -251,7 +251,7 @@ def c17(ck, thorough):
        {"Clients": "{1, 2, 3}" if thorough else "{1, 2}", "Sigma": tla_set([1, 2]), "MaxPatLen": 2,
         "MaxHay": 2 if not thorough else 1, "Kinds": tla_set(ALLK), "CallsPerClient": 1},
        ["Pure", "Deterministic"], ["Immutable"])
-    harness_calls(ck, "c17_threads", "threads", scale=4 if thorough else 1, shards=6, what="threads")
+    harness_calls(ck, "c17_threads", "threads", scale=16 if thorough else 1, shards=6, what="threads")
     ck.extra["rule"] = ("2..16 real threads share one searcher (and clones), start on a barrier and run shuffled call "
                         "sequences; every result and the searcher's full Debug dump before/after are validated by TLC; "
                         "the same calls are repeated sequentially in another order interleaved with unrelated searches")
@@ -299,7 +299,7 @@ def c10(ck, thorough):
        ["SpanLocal", "OutsideIrrelevant", "MatchesInSpan", "Consistent"])
     mc(ck, "ACSearch", "c10_search", search_consts(ALLK, [False, True], [False], [False, True], thorough),
        SEARCH_INV, ["PositionMonotone"])
-    calls(ck, "c10_span", "span", scale=3 if thorough else 1, mks=ALLK, an="both", flav="all")
+    calls(ck, "c10_span", "span", scale=8 if thorough else 1, mks=ALLK, an="both", flav="all")
 
 
 def ci_consts(d, big=False):
@@ -337,7 +337,7 @@ def c12(ck, thorough):
         "CIs": tla_set([False]), "Strs": tla_set([True]), "ReplSet": '"str"',
         "MaxStop": 1},
        ["ReplaceCorrect", "SlicesOnBoundaries", "OutputUtf8"], ["LastMonotone"])
-    calls(ck, "c12_replace", "replace", scale=4 if thorough else 1, mks=ALLK, an="no", flav="all")
+    calls(ck, "c12_replace", "replace", scale=12 if thorough else 1, mks=ALLK, an="no", flav="all")
 
 
 def c13(ck, thorough):
